@@ -218,9 +218,9 @@ func propC04(r *Run, w *World) {
 	// R2
 	r.Rule("C04.R2", "error xor message: every return of Parse, ParseLogLine, parseAuditHeader and GetAuditMessageType has a nil/zero value with a non-nil error, or a nil error; the AuditMessage literal is under err == nil", 15)
 	for _, fn := range []*ssa.Function{x.parse, x.parseLogLine, x.parseHeader, x.getType} {
-		for i, ret := range returnsOf(fn) {
+		for i, ret := range retEdges(fn) {
 			key := fmt.Sprintf("%s return#%d", fnName(fn), i)
-			ev, _ := errResult(ret)
+			ev, _ := errResultE(ret)
 			if ev == nil {
 				r.Fail(key, ret.Pos(), "no error result")
 				continue
@@ -260,7 +260,7 @@ func propC04(r *Run, w *World) {
 				}
 			}
 			// the error must be non-nil on this edge: a guard err != nil, a package-level error variable, or a constructor call
-			nonNil := HoldsAt(ret.Block(), Term(ev)+" != nil") || strings.HasPrefix(Term(ev), "auparse.err") || strings.HasPrefix(Term(ev), "errors.New(") || strings.HasPrefix(Term(ev), "fmt.Errorf(")
+			nonNil := ret.Holds(Term(ev)+" != nil") || strings.HasPrefix(Term(ev), "auparse.err") || strings.HasPrefix(Term(ev), "errors.New(") || strings.HasPrefix(Term(ev), "fmt.Errorf(")
 			r.Check(zero && nonNil, key, ret.Pos(), "zero value with a non-nil error", "an error return carries a value, or the error may be nil: "+Term(ev))
 		}
 	}
@@ -355,8 +355,8 @@ func propC04(r *Run, w *World) {
 		r.Check(n >= 1, "narrowing conversions found", fn.Pos(), "", "no conversion of a parsed number found in parseAuditHeader")
 		undo := autoAlias(fn)
 		// success return wiring
-		for _, ret := range returnsOf(fn) {
-			ev, _ := errResult(ret)
+		for _, ret := range retEdges(fn) {
+			ev, _ := errResultE(ret)
 			if !isNilConst(ev) {
 				continue
 			}
@@ -516,16 +516,16 @@ func c04UnknownRoundTrip(r *Run, w *World, ruleID string) {
 	{
 		undo := autoAlias(get)
 		okLookup, okParse := false, false
-		for _, ret := range returnsOf(get) {
-			ev, _ := errResult(ret)
+		for _, ret := range retEdges(get) {
+			ev, _ := errResultE(ret)
 			if !isNilConst(ev) {
 				continue
 			}
 			t := Term(ret.Results[0])
-			if t == "auparse.auditMessageNameToType[ToUpper#1]" && HoldsAt(ret.Block(), "has(auparse.auditMessageNameToType, ToUpper#1)") {
+			if t == "auparse.auditMessageNameToType[ToUpper#1]" && ret.Holds("has(auparse.auditMessageNameToType, ToUpper#1)") {
 				okLookup = true
 			}
-			if t == "auparse.AuditMessageType(ParseUint#1#0)" && HoldsAt(ret.Block(), "ParseUint#1#1 == nil") {
+			if t == "auparse.AuditMessageType(ParseUint#1#0)" && ret.Holds("ParseUint#1#1 == nil") {
 				for _, c := range callsNamedIn(get, "strconv.ParseUint") {
 					a := c.Common().Args
 					okParse = Term(a[0]) == "ToUpper#1[(IndexByte#1 + 1):][:IndexByte#2]" && isConstInt(a[1], 10) && isConstInt(a[2], 16)
@@ -1244,9 +1244,9 @@ func propC12(r *Run, w *World) {
 			r.Anchor(err)
 		} else {
 			ok := 0
-			for _, ret := range returnsOf(fh) {
+			for _, ret := range retEdges(fh) {
 				t := Term(ret.Results[0]) + "," + Term(ret.Results[1])
-				g := GuardLits(ret.Block())
+				g := ret.Lits()
 				switch t {
 				case "(p0 - 48),true":
 					if containsStr(g, "p0 >= 48") && containsStr(g, "p0 <= 57") {
@@ -1280,8 +1280,8 @@ func propC12(r *Run, w *World) {
 		}
 		if du, err := w.Func("auparse", "decodeUppercaseHex"); err == nil {
 			okOdd := false
-			for _, ret := range returnsOf(du) {
-				if HoldsAt(ret.Block(), "(len(p1) % 2) == 1") && !isNilConst(ret.Results[1]) {
+			for _, ret := range retEdges(du) {
+				if ret.Holds("(len(p1) % 2) == 1") && !isNilConst(ret.Results[1]) {
 					okOdd = true
 				}
 			}
